@@ -12,7 +12,6 @@ from harness import core, predgen
 ID = 'C17'
 TITLE = 'Renames inside access rules and conditions are exact'
 PROPS = ['Props/C17']
-DISABLED = True
 RULE = ('(a) process_renames is called directly with each of the three real collectors on generated predicate formulas '
         '(every supported node kind, nesting, blanks, comments, `$x` and `rec.x`, unicode), a renamer table drawn from the '
         'entities actually present plus misses, and a malformed/unsupported stream; the parser/asttokens/$-replacer '
